@@ -450,6 +450,14 @@ func runnerMain() int {
 			fmt.Printf("VIOLATION property=%s replay=%s\n", v.Property, path)
 			exit = 1
 			reported++
+		} else if v.Class == "data-race" {
+			// the detector's report of the original run stands on its own:
+			// which reports appear can depend on what the runtime does (the
+			// race build of sync.Pool drops objects at random, for instance)
+			fmt.Printf("violation: class=%s signature=%q seen in %d runs; first at seed %d (the report did not repeat in ten replays of that run)\n  %s\n", v.Class, v.Signature, a.violCount[k], rr.Seed, firstLines(v.Detail, 8))
+			fmt.Printf("VIOLATION property=%s replay=%s\n", v.Property, path)
+			exit = 1
+			reported++
 		} else {
 			trouble = append(trouble, fmt.Sprintf("violation %s did not reproduce from its replay file %s: %s", k, path, firstLines(string(outb), 10)))
 		}
